@@ -122,7 +122,7 @@ Fixpoint tree_occ (t : tree) {struct t} : list occ :=
 (* reading (to_ginline; SectionsBuilder for block references) *)
 Definition read_occ (dir : string) (o : occ) : occ :=
   match o_kind o with
-  | KNote lt => Occ (KNote lt) (o_alt o) (trim_end_matches MD (o_dest o)) (map to_ginline (o_text o))
+  | KNote lt => Occ (KNote lt) (o_alt o) (strip_md (o_dest o)) (map to_ginline (o_text o))
   | KBlock lt => Occ (KBlock lt) false (from_rel_link_url (o_dest o) dir) [Str (inlines_plain_text (o_text o))]
   | k => Occ k (o_alt o) (o_dest o) (map to_ginline (o_text o))
   end.
@@ -134,7 +134,7 @@ Definition refresh_occ (ctx : titles) (o : occ) : occ :=
       if o_alt o then o
       else Occ (KNote lt) false (o_dest o)
              match lt with
-             | Regular => match ctx (key_from_file_name (o_dest o)) with Some t => [Str t] | None => o_text o end
+             | Regular => match ctx (key_name (o_dest o)) with Some t => [Str t] | None => o_text o end
              | WikiLink => []
              | WikiLinkPiped => o_text o
              end
@@ -187,20 +187,12 @@ Proof. vm_compute. reflexivity. Qed.
 
 (* ---------- strings ------------------------------------------------------------------------------------------ *)
 
-Lemma trim_start_decomp p : forall f s, exists q, s = q +++ trim_start_matches_fuel f p s.
+(* what `strip_md` takes off is a suffix *)
+Lemma strip_md_decomp s : exists r, s = strip_md s +++ r.
 Proof.
-  induction f as [|f IH]; intros s; [now exists ""|]. rewrite trim_fuel_step.
-  destruct (strip_prefix p s) as [r|] eqn:E; [|now exists ""].
-  destruct (sempty p); [now exists ""|].
-  apply strip_prefix_some in E. subst s. destruct (IH r) as (q & Hq).
-  exists (p +++ q). rewrite sapp_assoc. now rewrite <- Hq.
-Qed.
-
-Lemma trim_end_decomp p s : exists r, s = trim_end_matches p s +++ r.
-Proof.
-  unfold trim_end_matches, trim_start_matches.
-  destruct (trim_start_decomp (srev p) (S (String.length (srev s))) (srev s)) as (q & Hq).
-  exists (srev q). rewrite <- srev_append, <- Hq. now rewrite srev_involutive.
+  destruct (ends_with MD s) eqn:E.
+  - exists MD. now apply strip_suffix_once_some.
+  - exists "". rewrite strip_md_none by exact E. now rewrite append_nil_r.
 Qed.
 
 Lemma lower_app a b : lower_ascii_str (a +++ b) = lower_ascii_str a +++ lower_ascii_str b.
@@ -222,9 +214,9 @@ Proof.
       destruct (starts_with p x) eqn:E; [|reflexivity]; apply (starts_with_app p _ (lower_ascii_str b)) in E; congruence end.
 Qed.
 
-Lemma is_ref_url_trim url : is_ref_url url = true -> is_ref_url (trim_end_matches MD url) = true.
+Lemma is_ref_url_trim url : is_ref_url url = true -> is_ref_url (strip_md url) = true.
 Proof.
-  intros H. destruct (trim_end_decomp MD url) as (r & Hr). rewrite Hr in H. now apply is_ref_url_prefix in H.
+  intros H. destruct (strip_md_decomp url) as (r & Hr). rewrite Hr in H. now apply is_ref_url_prefix in H.
 Qed.
 
 (* ---------- inlines ------------------------------------------------------------------------------------------ *)
@@ -823,22 +815,29 @@ Print Assumptions written_links.
 (* ---------- the rule of C06 for one occurrence ------------------------------------------------------------------------ *)
 
 (* [d]: an occurrence of the reader's blocks of a note in directory [dir]; [g]: the occurrence written for it.
-   - inline note link: same kind and place, destination without its `.md` (it resolves, from [dir], to the same
-     key); the text of a REGULAR link outside an image description is the title [ctx] has for
-     [key_from_file_name (destination)] - the destination text itself, WITHOUT the note's directory (F-INLINEDIR) -
+   The destination of [d] is url text as typed (with or without one `.md`); the destination of [g] is what the
+   graph holds, a key-like path (nothing is taken off it any more: `Key::name`), which the writer turns into url
+   text again with `ref_url` (the configured extension, and `.md` all the same where the path ends in `.md`).
+   - inline note link: same kind and place, destination without ONE `.md`; taken as a path it leads from [dir]
+     to the key the typed url resolves to, and so does what is written for it with either extension;
+     the text of a REGULAR link outside an image description is the title [ctx] has for
+     [key_from_file_name (destination)] - the destination itself, WITHOUT the note's directory (F-INLINEDIR) -
      when there is one, and is kept otherwise; bare wiki links have no text, piped ones keep theirs; the refresh
      does not enter image descriptions;
-   - external link, image: unchanged (to_ginline only drops `.md` in destinations of links nested in the text);
-   - block reference: the destination is the url, relative to [dir], of the key K the reference resolves to from
-     [dir]; it resolves to K again unless K ends in `.md` (C15); it is written as a paragraph of one link, which
-     is a block reference again unless that url is not a note url; the text of a regular reference is the title
-     of K when there is one and the plain text otherwise. *)
+   - external link, image: unchanged (to_ginline only takes `.md` off destinations of links nested in the text);
+   - block reference: the destination is the path, relative to [dir], of the key K the reference resolves to from
+     [dir]; it leads to K again, and what is written for it resolves to K again - EVERY K, also one ending in
+     `.md` (C15_rewrite_key / C15_rewrite_written; in the pinned tree a K ending in `.md` was lost); it is written
+     as a paragraph of one link, which is a block reference again unless that url is not a note url; the text of
+     a regular reference is the title of K when there is one and the plain text otherwise. *)
 Definition link_rule (ctx : titles) (dir : string) (d g : occ) : Prop :=
   match o_kind d with
   | KNote lt =>
       o_kind g = KNote lt /\ o_alt g = o_alt d /\
-      o_dest g = trim_end_matches MD (o_dest d) /\
-      from_rel_link_url (o_dest g) dir = from_rel_link_url (o_dest d) dir /\
+      o_dest g = strip_md (o_dest d) /\
+      join_normalized dir (o_dest g) = from_rel_link_url (o_dest d) dir /\
+      (forall ext, ext = MD \/ ext = "" ->
+         from_rel_link_url (ref_url (o_dest g) ext) dir = from_rel_link_url (o_dest d) dir) /\
       o_text g =
         if o_alt d then map to_ginline (o_text d)
         else match lt with
@@ -855,7 +854,8 @@ Definition link_rule (ctx : titles) (dir : string) (d g : occ) : Prop :=
       let K := from_rel_link_url (o_dest d) dir in
       o_alt g = false /\ o_dest g = to_rel_link_url K dir /\
       o_kind g = (if is_ref_url (o_dest g) then KBlock lt else KExt lt) /\
-      (ends_with MD K = false -> from_rel_link_url (o_dest g) dir = K) /\
+      join_normalized dir (o_dest g) = K /\
+      (forall ext, ext = MD \/ ext = "" -> from_rel_link_url (ref_url (o_dest g) ext) dir = K) /\
       o_text g = match lt with
                  | Regular => [Str match ctx K with Some t => t | None => inlines_plain_text (o_text d) end]
                  | WikiLink => []
@@ -871,17 +871,19 @@ Proof.
   destruct d as [k a u l]. unfold link_rule, format_occ. destruct k as [lt|lt| |lt]; cbn [o_kind o_alt o_dest o_text read_occ].
   - (* inline note link *)
     unfold refresh_occ. cbn [o_kind o_alt o_dest o_text].
-    assert (Ek : key_from_file_name (trim_end_matches MD u) = key_from_file_name u)
-      by (unfold key_from_file_name; apply trim_end_md_idempotent).
-    destruct a; unfold write_occ; cbn [o_kind o_alt o_dest o_text]; rewrite ?Ek;
-      repeat split; try reflexivity; apply C15_md_trim.
+    assert (Ew : forall ext, ext = MD \/ ext = "" ->
+              from_rel_link_url (ref_url (strip_md u) ext) dir = from_rel_link_url u dir).
+    { intros ext He. unfold from_rel_link_url. now rewrite strip_md_ref_url. }
+    destruct a; unfold write_occ; cbn [o_kind o_alt o_dest o_text];
+      repeat split; try reflexivity; exact Ew.
   - reflexivity.
   - reflexivity.
   - (* block reference *)
     unfold refresh_occ. cbn [o_kind o_alt o_dest o_text]. unfold write_occ. cbn [o_kind o_alt o_dest o_text].
     rewrite !plain_str.
     repeat split; try reflexivity.
-    + apply C15_rewrite.
+    + apply C15_rewrite_key.
+    + intros ext He. now apply C15_rewrite_written.
     + destruct lt; reflexivity.
 Qed.
 
@@ -922,13 +924,26 @@ Print Assumptions C06_note_links.
 Corollary C06_inline_resolved ctx dir d g :
   link_rule ctx dir d g -> o_kind d = KNote Regular -> o_alt d = false ->
   key_from_file_name (o_dest d) = from_rel_link_url (o_dest d) dir ->
-  o_text g = match ctx (from_rel_link_url (o_dest g) dir) with
+  o_text g = match ctx (join_normalized dir (o_dest g)) with
              | Some t => [Str t]
              | None => map to_ginline (o_text d)
              end.
 Proof.
-  unfold link_rule. intros H Hk Ha E. rewrite Hk in H. destruct H as (_ & _ & _ & Hr & Ht).
+  unfold link_rule. intros H Hk Ha E. rewrite Hk in H. destruct H as (_ & _ & _ & Hr & _ & Ht).
   rewrite Ha in Ht. now rewrite Hr, <- E.
+Qed.
+
+(* what is written for a note link or a block reference resolves, from [dir], to the key the typed url resolved
+   to: either extension, every key *)
+Corollary C06_written_resolves ctx dir d g ext :
+  link_rule ctx dir d g ->
+  match o_kind d with KNote _ | KBlock _ => True | _ => False end ->
+  ext = MD \/ ext = "" ->
+  from_rel_link_url (ref_url (o_dest g) ext) dir = from_rel_link_url (o_dest d) dir.
+Proof.
+  unfold link_rule. intros H Hk He. destruct (o_kind d); try contradiction.
+  - destruct H as (_ & _ & _ & _ & Hw & _). now apply Hw.
+  - destruct H as (_ & _ & _ & _ & Hw & _). now apply Hw.
 Qed.
 
 (* F-INLINEDIR: in a note of a sub-directory the title of an inline link comes from another note than the one the
@@ -942,7 +957,7 @@ Theorem C06_inline_dir_refuted :
   exists ctx key bs d g t,
     In (d, g) (combine (dlinks bs) (glinks (written ctx key bs))) /\
     o_kind d = KNote Regular /\ o_alt d = false /\
-    ctx (from_rel_link_url (o_dest g) (key_parent key)) = Some t /\ o_text g <> [Str t].
+    ctx (join_normalized (key_parent key) (o_dest g)) = Some t /\ o_text g <> [Str t].
 Proof.
   exists fd_ctx, "d/n", fd_bs, (Occ (KNote Regular) false "b.md" [Str "x"]), (Occ (KNote Regular) false "b" [Str "TOP"]), "SUB".
   split; [vm_compute; auto|]. repeat split. vm_compute. discriminate.
@@ -958,13 +973,18 @@ Proof.
   exists (fun _ => None), "n", [DPara (0, 1) [Link "./mailto:x" "" Regular [Str "m"]]], Regular. split; reflexivity.
 Qed.
 
-(* ... and does not resolve to the same key when that key ends in `.md` (C15_rewrite_md_refuted) *)
-Theorem C06_block_md_refuted :
+(* ... the former witness C06_block_md_refuted (a reference that resolves to a key ending in `.md`: it was
+   written `a.md` and read back as the note `a`) is an instance of the rule now: the path `a.md` is written
+   `a.md.md` where no extension is configured, and resolves to `d/a.md` again *)
+Example C06_block_md_kept :
   exists ctx key bs d g, dlinks bs = [d] /\ glinks (written ctx key bs) = [g] /\
-    from_rel_link_url (o_dest g) (key_parent key) <> from_rel_link_url (o_dest d) (key_parent key).
+    from_rel_link_url (o_dest d) (key_parent key) = "d/a.md" /\ o_dest g = "a.md" /\
+    ref_url (o_dest g) "" = "a.md.md" /\
+    from_rel_link_url (ref_url (o_dest g) "") (key_parent key) = from_rel_link_url (o_dest d) (key_parent key) /\
+    from_rel_link_url (ref_url (o_dest g) MD) (key_parent key) = from_rel_link_url (o_dest d) (key_parent key).
 Proof.
   exists (fun _ => None), "d/n", [DPara (0, 1) [Link "a.md/." "" Regular [Str "m"]]].
-  eexists. eexists. split; [reflexivity|]. split; [vm_compute; reflexivity|]. vm_compute. discriminate.
+  eexists. eexists. split; [reflexivity|]. split; [vm_compute; reflexivity|]. vm_compute. repeat split.
 Qed.
 
 (* non-vacuity: the test note of the top of this file (16 occurrences of every kind, nested lists with a merged
@@ -1044,9 +1064,9 @@ Print Assumptions C06_history_links.
 
 (* a 3-note library: b (title TOP), d/b (title SUB), d/n with an inline link and a block reference to `b.md` *)
 Definition lib3 : list op :=
-  [("b.md", None, [DHeader (0, 1) 1 [Str "TOP"]]);
-   ("d/b.md", Some ("t: 1" +++ LFS), [DHeader (0, 1) 1 [Str "SUB"]; DPara (2, 3) [Link "../b" "" WikiLink []]]);
-   ("d/n.md", None, DHeader (0, 1) 1 [Str "N"] :: fd_bs)].
+  [("b", None, [DHeader (0, 1) 1 [Str "TOP"]]);
+   ("d/b", Some ("t: 1" +++ LFS), [DHeader (0, 1) 1 [Str "SUB"]; DPara (2, 3) [Link "../b" "" WikiLink []]]);
+   ("d/n", None, DHeader (0, 1) 1 [Str "N"] :: fd_bs)].
 Definition lib3_ops : list op :=
   [("d/b", None, [DHeader (0, 1) 2 [Str "SUB"; Emph [Str "2"]]]); ("b", None, [DPara (0, 1) [Str "no title"]])].
 
@@ -1087,16 +1107,18 @@ Proof. vm_compute. repeat split. Qed.
 (* ---------- HEADLINE 3: the second pass (Reparse.rr: the reader on the written text) --------------------------------------------- *)
 
 Definition rr_dest (o : opts) (lt : link_type) (u : string) (l : list inline) : string :=
-  match lt with Regular => if written_autolink o u l then u else rr_url o u | _ => u end.
+  match lt with Regular => if written_autolink o u l then u else rr_url o u | _ => wiki_url u end.
 Definition rr_text (o : opts) (lt : link_type) (u : string) (l : list inline) : list inline :=
   match lt with
   | Regular => if written_autolink o u l then [Str u] else rr_inlines o l
-  | WikiLink => [Str u]
+  | WikiLink => [Str (wiki_url u)]
   | WikiLinkPiped => rr_inlines o l
   end.
 
-(* one written occurrence, re-read: a regular note link comes back with the configured extension; the text of a
-   bare wiki link and of an autolink is the destination; other texts are re-read ([rr_inlines]) *)
+(* one written occurrence, re-read: a regular note link comes back with the extension it was written with
+   (`ref_url`: the configured one, or `.md` where the path ends in `.md`), a wiki note link with `.md` where its
+   path ends in `.md`; the text of a bare wiki link and of an autolink is the destination as written; other
+   texts are re-read ([rr_inlines]) *)
 Definition reread_occ (o : opts) (oc : occ) : occ :=
   match o_kind oc with
   | KImage => Occ KImage (o_alt oc) (o_dest oc) (rr_inlines o (o_text oc))
@@ -1315,9 +1337,17 @@ Definition regular_note (g : occ) : bool :=
 Definition reread_rule (o : opts) (dir : string) (g r : occ) : Prop :=
   o_alt r = o_alt g /\
   lk_type (o_kind r) = lk_type (o_kind g) /\
-  (* the configured extension comes back on regular note links and block references, nothing else moves *)
-  o_dest r = (if regular_note g then o_dest g +++ refs_extension o else o_dest g) /\
-  (refs_extension o = MD \/ refs_extension o = "" -> from_rel_link_url (o_dest r) dir = from_rel_link_url (o_dest g) dir) /\
+  (* a note destination comes back as it was written: on regular note links and block references with the
+     configured extension, on wiki links without, and with `.md` in either case where the path itself ends in
+     `.md` (ref_url); nothing else moves *)
+  o_dest r = match lk_type (o_kind g) with
+             | Some Regular => if is_ref_url (o_dest g) then ref_url (o_dest g) (refs_extension o) else o_dest g
+             | Some _ => wiki_url (o_dest g)
+             | None => o_dest g
+             end /\
+  (* ... and, read once more, it names the note the written path leads to: every path, also one ending in `.md` *)
+  (refs_extension o = MD \/ refs_extension o = "" -> is_ref_url (o_dest g) = true -> lk_type (o_kind g) <> None ->
+   from_rel_link_url (o_dest r) dir = join_normalized dir (o_dest g)) /\
   (* a block reference stays one, an inline link stays inline, as long as the destination stays a note url *)
   o_kind r = match o_kind g with
              | KImage => KImage
@@ -1331,7 +1361,10 @@ Definition reread_rule (o : opts) (dir : string) (g r : occ) : Prop :=
              end.
 
 Lemma rr_dest_spec o lt u l :
-  rr_dest o lt u l = match lt with Regular => if is_ref_url u then u +++ refs_extension o else u | _ => u end.
+  rr_dest o lt u l = match lt with
+                     | Regular => if is_ref_url u then ref_url u (refs_extension o) else u
+                     | _ => wiki_url u
+                     end.
 Proof.
   destruct lt; try reflexivity. unfold rr_dest, written_autolink, rr_url.
   destruct (is_ref_url u); cbn [negb andb]; [reflexivity|]. now destruct (eq_ignore_ascii_case (inlines_md o l) u).
@@ -1342,24 +1375,34 @@ Proof. unfold inline_kind. now destruct (is_ref_url u). Qed.
 
 Lemma reread_rule_holds o dir g : reread_rule o dir g (reread_occ o g).
 Proof.
-  assert (Hres : forall u, refs_extension o = MD \/ refs_extension o = "" ->
-            from_rel_link_url (u +++ refs_extension o) dir = from_rel_link_url u dir).
-  { intros u [-> | ->]; [apply C15_md | now rewrite append_nil_r]. }
+  assert (Hres : forall u ext, ext = MD \/ ext = "" ->
+            from_rel_link_url (ref_url u ext) dir = join_normalized dir u).
+  { intros u ext He. unfold from_rel_link_url. now rewrite strip_md_ref_url. }
+  assert (Hall : forall lt u, refs_extension o = MD \/ refs_extension o = "" -> is_ref_url u = true ->
+            from_rel_link_url (match lt with
+                               | Regular => if is_ref_url u then ref_url u (refs_extension o) else u
+                               | _ => wiki_url u
+                               end) dir = join_normalized dir u).
+  { intros lt u He Hu. unfold wiki_url. rewrite Hu. destruct lt; apply Hres; auto. }
   destruct g as [k a u l]. unfold reread_rule, reread_occ, regular_note.
   destruct k as [lt|lt| |lt]; cbn [o_kind o_alt o_dest o_text lk_type]; rewrite ?rr_dest_spec.
-  - repeat split; try reflexivity.
-    + apply lk_type_inline_kind.
-    + destruct lt; reflexivity.
-    + intros He. destruct lt; try reflexivity; destruct (is_ref_url u); [now apply Hres | reflexivity].
-  - repeat split; try reflexivity.
-    + apply lk_type_inline_kind.
-    + destruct lt; reflexivity.
-    + intros He. destruct lt; try reflexivity; destruct (is_ref_url u); [now apply Hres | reflexivity].
-  - repeat split; reflexivity.
-  - repeat split; try reflexivity.
-    + now destruct (is_ref_url _).
-    + destruct lt; reflexivity.
-    + intros He. destruct lt; try reflexivity; destruct (is_ref_url u); [now apply Hres | reflexivity].
+  - split; [reflexivity|]. split; [apply lk_type_inline_kind|]. split; [destruct lt; reflexivity|].
+    split; [intros He Hu _; now apply Hall|]. split; reflexivity.
+  - split; [reflexivity|]. split; [apply lk_type_inline_kind|]. split; [destruct lt; reflexivity|].
+    split; [intros He Hu _; now apply Hall|]. split; reflexivity.
+  - split; [reflexivity|]. split; [reflexivity|]. split; [reflexivity|].
+    split; [intros _ _ H; now elim H|]. split; reflexivity.
+  - split; [reflexivity|]. split; [now destruct (is_ref_url _)|]. split; [destruct lt; reflexivity|].
+    split; [intros He Hu _; now apply Hall|]. split; reflexivity.
+Qed.
+
+Corollary C06_reread_resolves o dir g r :
+  reread_rule o dir g r ->
+  refs_extension o = MD \/ refs_extension o = "" -> is_ref_url (o_dest g) = true ->
+  match o_kind g with KImage => False | _ => True end ->
+  from_rel_link_url (o_dest r) dir = join_normalized dir (o_dest g).
+Proof.
+  intros (_ & _ & _ & H & _) He Hu Hk. apply H; auto. destruct (o_kind g); try discriminate. contradiction.
 Qed.
 
 (* the blocks the reader returns for the text written for a note (rr of the written blocks, on the class):
